@@ -54,6 +54,20 @@ def run(ctx):
         if ((J == 0) != (Jm == 0)).any() or not ok or np.any(J[0] != 0):
             ctx.fail("correspondence", f"Jacobian of basic_simulation(Z={z}, E={e}, dr_fwhm={w}, CNI=True) differs from Basic.rateMatrix / has a non-zero neutral row",
                      inp={"Z": z, "j": j, "E": e, "w": w, "cni": True})
+    # the three scalar facts of `C02.ScalarFacts` / `ScalarFactsRec` in binary64, for every cross-section value met (they carry the
+    # theorems `eiMat_colsum_exact` / `recMat_colsum_exact` — column sums exactly 0 for every size — over to the implementation's arithmetic)
+    import ebisim
+    nfacts = 0
+    for z in zs[:: max(1, len(zs) // 12)]:
+        el = xscorr.element(z)
+        for e in (float(10 ** rng.uniform(1, 5)), float(el.e_bind[el.e_bind > 0].max() * 1.5)):
+            vals = np.concatenate([ebisim.eixs_vec(el, e), ebisim.rrxs_vec(el, e), ebisim.drxs_vec(el, e, 10.0)])
+            with np.errstate(all="ignore"):
+                f1 = (0.0 + (0.0 - vals)) + (vals - 0.0); f2 = (0.0 + (vals - 0.0)) + (0.0 - vals)
+            nfacts += vals.size
+            if np.any(f1 != 0.0) or np.any(f2 != 0.0) or (0.0 + 0.0) != 0.0 or (0.0 - 0.0) != 0.0:
+                ctx.fail("correspondence", f"binary64 does not satisfy the scalar facts of C02.ScalarFacts for a cross section of Z={z} at E={e}", inp={"Z": z, "E": e})
+    ctx.count("scalar_fact_values", nfacts)
     ctx.sample({"op": "jacobian", "Z": z, "E": e, "dr_fwhm": w, "CNI": cni, "diag_first": np.diag(J)[:3]})
     ctx.cov["elements"] = zs
 
